@@ -143,6 +143,7 @@ SIGS = {
     "jax.numpy.full_like": ["a", "fill_value", "dtype"],
     "jax.numpy.squeeze": ["a", "axis"],
     "jax.numpy.split": ["ary", "indices_or_sections", "axis"],
+    "diffrax.diffeqsolve": ["terms", "solver", "t0", "t1", "dt0", "y0", "args"],
     "jax.random.split": ["key", "num"],
     "jax.random.uniform": ["key", "shape", "dtype", "minval", "maxval"],
     "jax.random.normal": ["key", "shape", "dtype"],
@@ -277,6 +278,16 @@ class Normalizer:
         if k == "slice":
             return patom(self.index(n))
         if k == "item":
+            src = n[1]
+            if isinstance(src, tuple) and src and src[0] == "call" and src[1] == ("global", "zip") and not src[3] and len(src[2]) == 1 \
+                    and isinstance(src[2][0], tuple) and src[2][0] and src[2][0][0] == "star" and isinstance(n[2], int):
+                # zip(*rows)[i] is the i-th column: tuple(row[i] for row in rows)
+                rows = src[2][0][1]
+                from .vgraph import walk as _walk
+                own = {c_[4] for c_ in _walk(rows) if isinstance(c_, tuple) and len(c_) == 5 and c_[0] == "comp"}
+                d_ = 1 + max([b[1] for b in _walk(rows) if isinstance(b, tuple) and b and b[0] == "bound" and b[1] not in own], default=0)
+                col = ("comp", "GeneratorExp", ("item", ("bound", d_, 0), n[2]), ((rows, ()),), d_)
+                return self._poly(("call", ("global", "tuple"), (col,), ()))
             c = self.canon(n[1])
             if isinstance(c, tuple) and c and c[0] == "tuple" and isinstance(n[2], int) and 0 <= n[2] < len(c) - 1:
                 return thaw(c[1 + n[2]])
@@ -320,8 +331,14 @@ class Normalizer:
         if k == "bound":
             return patom(("bv", n[1], n[2]))
         if k == "comp":
-            return patom(("comp", n[1], self.canon(n[2]),
-                          tuple((self.canon(it), tuple(self.canon(c) for c in cs)) for it, cs in n[3])))
+            # a list comprehension and a generator expression denote the same sequence of values (laziness aside)
+            def unwrapped(it):
+                # iterating over tuple(xs) / list(xs) is iterating over xs
+                while isinstance(it, tuple) and it and it[0] == "call" and it[1] in (("global", "tuple"), ("global", "list")) and len(it[2]) == 1 and not it[3]:
+                    it = it[2][0]
+                return it
+            return patom(("comp", "GeneratorExp" if n[1] == "ListComp" else n[1], self.canon(n[2]),
+                          tuple((self.canon(unwrapped(it)), tuple(self.canon(c) for c in cs)) for it, cs in n[3])))
         if k == "loop":
             return patom(("loop", self.canon(n[1]), self.canon(n[2]), self.canon(n[3])))
         if k == "star":
@@ -637,7 +654,8 @@ class Normalizer:
         if isinstance(f, tuple) and f[0] == "attr" and f[2] in ARRAY_METHODS:
             recv = f[1]
             is_module = isinstance(recv, tuple) and recv[0] == "global"
-            if not is_module:
+            is_self = recv == ("param", "self")  # self.clip(...) / self.mean(...) are the object's own methods, not array methods
+            if not is_module and not is_self:
                 fname = "jax.numpy." + f[2]
                 args = (recv,) + tuple(args)
         if fname is not None and fname.startswith("numpy.") and ("jax.numpy." + fname[6:]) in SIGS | {"jax.numpy." + s: 0 for s in BINFUN}:
@@ -662,6 +680,12 @@ class Normalizer:
                 return pmul(p, p)
             if short == "reciprocal" and len(args) == 1:
                 return self.inv(self.poly(args[0]))
+            if short in ("full", "full_like") and len(args) >= 2 and "fill_value" not in kw:
+                # full(shape, v) is v times full(shape, 1): the sign and scale of the fill value stay visible to the polynomial layer
+                pv = self.poly(args[1])
+                if pv != pconst(1):
+                    one_ = self.call(("call", f, (args[0], ("const", 1)) + tuple(args[2:]), kwargs))
+                    return pmul(pv, one_)
             if short == "expand_dims" and ((len(args) == 2 and not kw) or (len(args) == 1 and set(kw) == {"axis"})):
                 ax = args[1] if len(args) == 2 else kw["axis"]
                 if ax == ("const", 0):
@@ -732,6 +756,29 @@ class Normalizer:
             inner = self.canon(args[0])
             if isinstance(inner, tuple) and inner and (inner[0] == "tuple" or (inner[0] == "call" and inner[1] in ("tuple", "list") and len(inner[2]) == 1 and not inner[3])):
                 return patom(inner) if inner[0] == "tuple" else patom(("call", fname, inner[2], ()))
+        # pytree operations act component-wise on a tuple of trees: partition / combine / tree.map of literal tuples are the tuples of
+        # the per-component results (so blending two critics in one call reads like blending each in its own call)
+        if fname in ("equinox.partition", "equinox.combine", "jax.tree.map", "jax.tree_util.tree_map") and not kw:
+            trees = args[1:] if fname.endswith("map") else (args[:1] if fname == "equinox.partition" else args)
+            ct = [self.canon(t) for t in trees]
+            if trees and all(isinstance(c, tuple) and c and c[0] == "tuple" and len(c) == len(ct[0]) and len(c) > 1 for c in ct):
+                n_ = len(ct[0]) - 1
+                comps = []
+                for i in range(n_):
+                    parts_i = tuple(("item", t, i) for t in trees)
+                    if fname == "equinox.partition":
+                        comps.append(("call", f, parts_i + tuple(args[1:]), ()))
+                    elif fname == "equinox.combine":
+                        comps.append(("call", f, parts_i, ()))
+                    else:
+                        comps.append(("call", f, (args[0],) + parts_i, ()))
+                if fname == "equinox.partition":
+                    return self._poly(("tuple", (("tuple", tuple(("item", c, 0) for c in comps)), ("tuple", tuple(("item", c, 1) for c in comps)))))
+                return self._poly(("tuple", tuple(comps)))
+        if fname == "jax.random.permutation" and len(args) >= 2 and isinstance(args[1], tuple) and args[1] and args[1][0] == "call" \
+                and args[1][1] == ("global", "jax.numpy.arange") and len(args[1][2]) == 1 and not args[1][3]:
+            # permutation(key, arange(n)) is permutation(key, n) (JAX shuffles arange(n) for an integer argument)
+            return self.call(("call", f, (args[0], args[1][2][0]) + tuple(args[2:]), kwargs))
         if fname == "functools.reduce" and len(args) == 3 and not kw and (args[0], args[2]) == (("global", "operator.mul"), ("const", 1)):
             # the left fold of a product from 1 is math.prod
             return self.call(("call", ("global", "math.prod"), (args[1],), ()))
